@@ -46,6 +46,7 @@ def setup(rep, tier):
     rep.minimum('R16.8', 8)
     rep.minimum('R16.9', 1)
     rep.minimum('R16.10', 8)
+    rep.minimum('R16.11', 1)
 
 
 def _pos_key(f):
@@ -727,7 +728,62 @@ def r16_10(rep, prog):
     return n
 
 
+# ------------------------------------------------------------------ R16.11
+def r16_11(rep, prog):
+    """stack use must not be chosen by the packet: a variable-length array whose element count derives from counting
+    the extensions found in packet padding (one `repeat these extensions` byte stands for up to 48 records of 24 bytes)
+    needs a constant upper bound on that count.  Without it a packet of a few hundred bytes exhausts a thread stack."""
+    n = 0
+    for f in prog.functions_all:
+        if not (f.file.endswith('src/repacketizer.c') or f.file.endswith('src/extensions.c')):
+            continue
+        cf = None
+        for b_ in f.blocks.values():
+            for s_ in b_['stmts']:
+                if sx.kind(s_) != 'decls':
+                    continue
+                for d in s_[1]:
+                    if d[0] != 'decl' or 'vla' not in sx.A(d):
+                        continue
+                    dim = sx.A(d)['vla']
+                    seen, calls, clamp, work = set(), set(), False, [dim]
+                    while work:
+                        x = work.pop()
+                        for y in sx.walk(x):
+                            if sx.kind(y) == 'call':
+                                calls.add(sx.callee_name(y))
+                            if sx.kind(y) == 'local' and y[2] not in seen:
+                                seen.add(y[2])
+                                for n_ in f.all_nodes():
+                                    if n_[0] == 'decls':
+                                        for d2 in n_[1]:
+                                            if d2[0] == 'decl' and d2[2] == y[2] and d2[3] is not None:
+                                                work.append(d2[3])
+                                        continue
+                                    if n_[0] in ('assign', 'cassign') and sx.key(sx.strip(n_[1] if n_[0] == 'assign' else n_[2])) == ('local', y[2]):
+                                        r = n_[2] if n_[0] == 'assign' else n_[3]
+                                        mm = T_minmax(r) if 'T_minmax' in globals() else None
+                                        if mm and mm[0] == 'min' and (sx.int_val(mm[1]) is not None or sx.int_val(mm[2]) is not None):
+                                            clamp = True
+                                        work.append(r)
+                    if not ({'opus_packet_extensions_count', 'opus_packet_extensions_parse', 'opus_packet_extensions_count_ext'} & calls):
+                        continue
+                    n += 1
+                    rep.functions.add(f.name)
+                    inst = '%s:%s bounds the number of extension records it puts on the stack (`%s`)' % (prog.config, f.name, d[1])
+                    where = '%s:%s' % (f.file, sx.A(d).get('l') or f.line)
+                    if clamp:
+                        rep.holds('R16.11', inst, where, 'count clamped by a constant')
+                    else:
+                        rep.violated('R16.11', inst, where, 'the array `%s[%s]` is sized by the number of extensions counted in the stored padding, with no constant bound: a well-formed packet of a few hundred bytes (repeat indicators) asks for megabytes of stack' % (d[1], sx.show(dim)),
+                                     key='%s:%s:unbounded-vla' % (f.name, d[1]))
+    if n == 0:
+        rep.holds('R16.11', '%s:no stack array is sized by a count of parsed extensions' % prog.config, None, None)
+    return n
+
+
 def check(rep, prog, tier):
+    r16_11(rep, prog)
     r16_10(rep, prog)
     r16_9(rep, prog)
     from . import c07
